@@ -25,6 +25,10 @@ type Outcome struct {
 	Err   error
 	Panic any
 	Stack string
+	// Iface: the entry point's result type is an interface (ParsePKCS8PrivateKey, ParsePKIXPublicKey).  Its caller
+	// can only test `key != nil`, so an interface that holds a nil pointer is NOT "no object" (X509ParseKeys.tla,
+	// NoTypedNil): it is reported as the mixed outcome it is.
+	Iface bool
 }
 
 // outcome classes of X509Parse.tla
@@ -46,10 +50,32 @@ func isNilObj(o any) bool {
 	return false
 }
 
+// typedNil reports an interface-typed result that is not the nil interface but holds a nil pointer (map, func, chan).
+func (o Outcome) typedNil() bool {
+	if !o.Iface || o.Obj == nil {
+		return false
+	}
+	v := reflect.ValueOf(o.Obj)
+	switch v.Kind() {
+	case reflect.Ptr, reflect.Map, reflect.Func, reflect.Chan, reflect.UnsafePointer:
+		return v.IsNil()
+	}
+	return false
+}
+
 // Class maps (object, error) to the specification's outcome classes; mixed outcomes get their own names.
 func (o Outcome) Class() string {
 	if o.Panic != nil {
 		return "panic"
+	}
+	if o.typedNil() {
+		switch {
+		case o.Err == nil:
+			return "mixed:typednil+nil"
+		case ctx509.IsFatal(o.Err):
+			return "mixed:typednil+fatal"
+		}
+		return "mixed:typednil+nonFatal"
 	}
 	has := !isNilObj(o.Obj)
 	switch {
@@ -71,22 +97,24 @@ func (o Outcome) Class() string {
 type Entry struct {
 	Name string
 	Call func([]byte) (any, error)
+	// Iface: the entry point returns an interface value (handed on as it is, never re-boxed)
+	Iface bool
 }
 
 // Entries are the twelve entry points of the property's anchors.
 var Entries = []Entry{
-	{"ParseCertificate", func(b []byte) (any, error) { return ctx509.ParseCertificate(b) }},
-	{"ParseTBSCertificate", func(b []byte) (any, error) { return ctx509.ParseTBSCertificate(b) }},
-	{"ParseCertificates", func(b []byte) (any, error) { return ctx509.ParseCertificates(b) }},
-	{"ParseCertificateList", func(b []byte) (any, error) { return ctx509.ParseCertificateList(b) }},
-	{"ParseCertificateListDER", func(b []byte) (any, error) { return ctx509.ParseCertificateListDER(b) }},
-	{"ParseCRL", func(b []byte) (any, error) { return ctx509.ParseCRL(b) }},
-	{"ParseDERCRL", func(b []byte) (any, error) { return ctx509.ParseDERCRL(b) }},
-	{"ParsePKIXPublicKey", func(b []byte) (any, error) { return ctx509.ParsePKIXPublicKey(b) }},
-	{"ParsePKCS1PrivateKey", func(b []byte) (any, error) { return ctx509.ParsePKCS1PrivateKey(b) }},
-	{"ParsePKCS8PrivateKey", func(b []byte) (any, error) { return ctx509.ParsePKCS8PrivateKey(b) }},
-	{"ParseECPrivateKey", func(b []byte) (any, error) { return ctx509.ParseECPrivateKey(b) }},
-	{"ParseCertificateRequest", func(b []byte) (any, error) { return ctx509.ParseCertificateRequest(b) }},
+	{Name: "ParseCertificate", Call: func(b []byte) (any, error) { return ctx509.ParseCertificate(b) }},
+	{Name: "ParseTBSCertificate", Call: func(b []byte) (any, error) { return ctx509.ParseTBSCertificate(b) }},
+	{Name: "ParseCertificates", Call: func(b []byte) (any, error) { return ctx509.ParseCertificates(b) }},
+	{Name: "ParseCertificateList", Call: func(b []byte) (any, error) { return ctx509.ParseCertificateList(b) }},
+	{Name: "ParseCertificateListDER", Call: func(b []byte) (any, error) { return ctx509.ParseCertificateListDER(b) }},
+	{Name: "ParseCRL", Call: func(b []byte) (any, error) { return ctx509.ParseCRL(b) }},
+	{Name: "ParseDERCRL", Call: func(b []byte) (any, error) { return ctx509.ParseDERCRL(b) }},
+	{Name: "ParsePKIXPublicKey", Call: func(b []byte) (any, error) { return ctx509.ParsePKIXPublicKey(b) }, Iface: true},
+	{Name: "ParsePKCS1PrivateKey", Call: func(b []byte) (any, error) { return ctx509.ParsePKCS1PrivateKey(b) }},
+	{Name: "ParsePKCS8PrivateKey", Call: func(b []byte) (any, error) { return ctx509.ParsePKCS8PrivateKey(b) }, Iface: true},
+	{Name: "ParseECPrivateKey", Call: func(b []byte) (any, error) { return ctx509.ParseECPrivateKey(b) }},
+	{Name: "ParseCertificateRequest", Call: func(b []byte) (any, error) { return ctx509.ParseCertificateRequest(b) }},
 }
 
 // EntryByName finds an entry point.
@@ -125,7 +153,7 @@ func Invoke(e *Entry, in []byte, s *slot) (out Outcome, buf []byte) {
 		}
 	}()
 	o, err := e.Call(buf)
-	return Outcome{Obj: o, Err: err}, buf
+	return Outcome{Obj: o, Err: err, Iface: e.Iface}, buf
 }
 
 // subSlice reports the offset of s within buf when s aliases buf's backing array.
@@ -184,8 +212,8 @@ func (k *Checker) Coherent(e *Entry, in []byte, o Outcome) bool {
 	case ClsOK, ClsNonFatal, ClsFatal:
 		return true
 	default:
-		k.violate("incoherent:"+e.Name+":"+c, fmt.Sprintf("%s returns the mixed outcome %s (object present: %v, error: %v, IsFatal: %v)",
-			e.Name, c, !isNilObj(o.Obj), o.Err, o.Err != nil && ctx509.IsFatal(o.Err)), e.Name, in, nil)
+		k.violate("incoherent:"+e.Name+":"+c, fmt.Sprintf("%s returns the mixed outcome %s (object present: %v, dynamic type %T, error: %v, IsFatal: %v)",
+			e.Name, c, !isNilObj(o.Obj) || o.typedNil(), o.Obj, o.Err, o.Err != nil && ctx509.IsFatal(o.Err)), e.Name, in, nil)
 		return false
 	}
 }
